@@ -32,10 +32,10 @@ import translate  # noqa: E402
 PROPERTY_FILES = {
     "C01": ["C01", "SrcLin", "FullLin", "FullApi", "EndToEnd"], "C02": ["C02", "SrcHll", "FullHll", "FullApi", "EndToEnd"], "C03": ["C03", "SrcHH", "FullHH", "SrcHHQ", "FullApi", "EndToEnd"], "C04": ["C04", "SrcHH", "FullHH", "EndToEnd"],
     "C05": ["C05", "C05Log", "SrcLin", "FullLin", "FullLog", "FullApi"],
-    "C06": ["C06", "C06Unbias", "C09Link", "SrcRand", "FullLog", "FullApi", "EndToEndLog"], "C07": ["C07", "FullEst", "SrcFloat"], "C08": ["C08", "C08Compose", "SrcPar"], "C09": ["C09", "C09Link", "SrcLin", "FullLin", "FullLog", "FullApi", "EndToEndLog", "SrcFloat"],
+    "C06": ["C06", "C06Unbias", "C09Link", "SrcRand", "FullLog", "FullLogMerge", "FullApi", "EndToEndLog"], "C07": ["C07", "FullEst", "SrcFloatHll"], "C08": ["C08", "C08Compose", "SrcPar"], "C09": ["C09", "C09Link", "SrcLin", "FullLin", "FullLog", "FullLogMerge", "FullApi", "EndToEndLog", "SrcFloat"],
     "C10": ["C10", "SrcSchema"],
     "C11": ["C11", "FullHash"], "C12": ["C12", "FullLin", "FullLog", "FullHll", "FullHH", "FullApi"], "C13": ["C13", "SrcHH", "FullHH", "SrcHHQ"], "C14": ["C14"], "C15": ["C15"], "C16": ["C16", "SrcSchema"],
-    "C17": ["C17", "FullEst", "SrcFloat"], "C18": ["C18", "C09Link", "SrcLin", "FullLin", "FullLog", "FullApi", "EndToEndLog", "SrcFloat"], "C19": ["C19", "SrcPar"], "C20": ["C20", "SrcSchema"],
+    "C17": ["C17", "FullEst", "SrcFloatHll"], "C18": ["C18", "C09Link", "SrcLin", "FullLin", "FullLog", "FullLogMerge", "FullApi", "EndToEndLog", "SrcFloat"], "C19": ["C19", "SrcPar"], "C20": ["C20", "SrcSchema"],
 }
 
 
